@@ -1,6 +1,6 @@
 PROPERTY = {'id': 'C11',
  'contract_modules': ['doctest_example', 'util_stream', 'checker', 'doctest_part', 'runner'],
- 'functions': ['xdoctest.doctest_example:DocTest.run',
+ 'functions': ['xdoctest.doctest_example:DocTest.run', 'xdoctest.utils.util_stream:CaptureStdout.__init__', 'xdoctest.utils.util_stream:CaptureStdout.start', 'xdoctest.utils.util_stream:CaptureStdout.stop', 'xdoctest.utils.util_stream:CaptureStdout.__enter__', 'xdoctest.utils.util_stream:CaptureStdout.__exit__', 'xdoctest.utils.util_stream:CaptureStdout.log_part', 'xdoctest.utils.util_stream:TeeStringIO.__init__',
                'xdoctest.doctest_example:DocTest._post_run',
                'xdoctest.doctest_example:DocTest._parse',
                'xdoctest.doctest_example:DocTest._pre_run',
@@ -22,7 +22,9 @@ PROPERTY = {'id': 'C11',
                    'recorded failure" hold whatever the object held before the call (inv-init obligations): nothing survives from an earlier run',
                    'the dict handed to exec is self.global_namespace, not the module dict; it is cleared on every normally returning path that '
                    'executed something (post namespace-cleared)',
-                   'a fresh RuntimeState is constructed per run (constructor call inside run)'],
+                   'a fresh RuntimeState is constructed per run (constructor call inside run)',
+                  'a doctest that replaces sys.stdout cannot affect the next one: CaptureStdout.stop/__exit__ put back the stream that was current '
+                  'when the capture object was built, unconditionally, and run ends with sys.stdout identical to its entry value'],
              'T': ['compile / exec / eval / asyncio.run as oracles (pyvc/models_run.py): return a value or raise any class, write to the current '
                    'sys.stdout, may rebind sys.stdout, bind names in the dict they are given',
                    'CPython: an exception raised while running code compiled with filename F has a traceback entry of F',
